@@ -41,6 +41,8 @@ pub struct RunResult {
     pub items: u64,
     pub max_wait: u64,
     pub max_work: u64,
+    /// 0-based trace indices of pushes that were refused (try_push -> Err, push -> panic)
+    pub refused_ops: Vec<usize>,
 }
 
 #[derive(PartialEq, Eq, Clone, Copy, Debug)]
@@ -680,7 +682,10 @@ impl<'a> Runner<'a> {
                 ),
             );
         }
-        let bound = 61 * (g.max(1) as u64) * (1 + completions + ended + pulled) + 61;
+        // "bounded": independent of how long children keep waking themselves. The constant is
+        // deliberately far above the crate's current per-drain budget (61) so that a different,
+        // still bounded, budget is not reported.
+        let bound = 1024 * (g.max(1) as u64) * (1 + completions + ended + pulled) + 8 * peak as u64;
         if work > bound {
             self.violate(
                 "C13",
@@ -1030,6 +1035,8 @@ impl<'a> Runner<'a> {
                 }
             }
             PushOut::Refused(rid) => {
+                let oi = with(|w| w.op_index);
+                self.res.refused_ops.push(oi.saturating_sub(1));
                 with(|w| {
                     w.faults[FA_REFUSED] += 1;
                     w.log(0x41, id as u64);
@@ -1048,6 +1055,8 @@ impl<'a> Runner<'a> {
             PushOut::Panicked => {
                 // the panic machinery allocates its payload; that is not the crate's doing
                 F.with(|f| f.allocs_in_crate.set(allocs_before));
+                let oi = with(|w| w.op_index);
+                self.res.refused_ops.push(oi.saturating_sub(1));
                 with(|w| {
                     w.faults[FA_REFUSED] += 1;
                     w.log(0x42, id as u64);
@@ -1903,7 +1912,42 @@ impl<'a> Runner<'a> {
 }
 
 /// Execute one run. Everything the run decides comes from `(cfg, trace)`.
+///
+/// C15 says a refused push leaves the collection undisturbed. That is decided by a
+/// counterfactual: if the run misbehaves (loses, reorders, invents or leaks something) and the
+/// same trace without its refused pushes does not, the refusal disturbed the collection.
 pub fn run(cfg: &Config, trace: &[Op]) -> RunResult {
+    let mut r = run_inner(cfg, trace);
+    let cand: Vec<Violation> = r
+        .violations
+        .iter()
+        .filter(|v| matches!(v.property.as_str(), "C01" | "C02" | "C04" | "C05" | "C06" | "C08" | "C11"))
+        .cloned()
+        .collect();
+    if !cand.is_empty() && !r.refused_ops.is_empty() && r.refused_ops.iter().all(|&i| i < trace.len()) {
+        let t2: Vec<Op> = trace
+            .iter()
+            .enumerate()
+            .filter(|(i, _)| !r.refused_ops.contains(i))
+            .map(|(_, o)| o.clone())
+            .collect();
+        let r2 = run_inner(cfg, &t2);
+        for v in cand {
+            if !r2.violations.iter().any(|w| w.property == v.property && w.oracle == v.oracle) {
+                r.violations.push(Violation {
+                    property: "C15".to_string(),
+                    oracle: "disturbed-by-refused-push".to_string(),
+                    detail: format!("{} [{}/{}]; the same history without its refused pushes behaves correctly", v.detail, v.property, v.oracle),
+                    op_index: v.op_index,
+                });
+                break;
+            }
+        }
+    }
+    r
+}
+
+fn run_inner(cfg: &Config, trace: &[Op]) -> RunResult {
     flags::reset_flags();
     probes::reset();
     let _ = crate::alloc::end_run(true);
